@@ -11,7 +11,7 @@ main loop strictly advances `i + j`.
 The second legacy driver, `ordered_map_valid_stream_old`, has no C12 theorem (see the harness note).
 -/
 namespace Exetera.Props.C12
-open Exetera Exetera.JoinOld
+open Exetera Exetera.JoinOld Exetera.JoinOld.Term
 
 /-- **legacy_join_streamed_terminates.** Every input, every chunk size ≥ 1: `.ok` within the model's linear budgets
     (`1·|L| + 1·|R|` main-loop iterations, `|L|` tail iterations). -/
